@@ -1,4 +1,121 @@
-import HioModel.Wsgi.Model
+import HioModel.Wsgi.Lemmas
+/-!
+# C18 — WSGI responses are framed and pipelined requests answered in order
+
+Model: `HioModel/Wsgi/Model.lean` (`Responder.start/build/write/reset/service`, `Server.serviceReqs/serviceReps`
+on one connection; F28 and the `.persisted` race repaired in the tree, F29 kept).  Specification side:
+`HioModel/Wsgi/Spec.lean` — an independent response-framing parser (`parseResp`, `parseMany`), what the
+application asked for (`appBody`, `expectedBody`), the well-formedness of app output (`WFApp`) and
+`Delimited r a` = "the response carries its own end" (declared Content-Length, or an HTTP/1.1 request so that the
+body is chunked).
+
+Full statement: for EVERY request list and EVERY well-formed app behaviour the byte stream parses back, response by
+response in request order, to exactly the app's status line, header list and body.  It is FALSE exactly when a
+request is HTTP/1.0 and the app declares no Content-Length (F29, known finding C18-K1): `f29_not_delimited`.
+Everything else is proved: `responses_parse_back_partial` (guard: every response `Delimited`).
+-/
 namespace Hio.Http.Wsgi
-theorem placeholder18 : serve [] = ⟨[], false, 0⟩ := rfl
+open Hio.Http
+
+/-- C18 clamp: with a declared Content-Length `L` the bytes after the head are exactly the first `L` bytes the
+application produced — never more than `L`, for every app behaviour (any pieces, empty ones, return value) -/
+theorem clamp (r : Req) (a : App) (L : Nat) (h : a.clen = some L) :
+    respond r a = head r a ++ (appBody a).take L ∧ ((appBody a).take L).length ≤ L := by
+  refine ⟨?_, by rw [List.length_take]; omega⟩
+  rw [respond_eq]; unfold payload; rw [h]
+
+/-- C18 close: the server closes the connection iff some request on it was not persistent … -/
+theorem close_iff_not_persisted (l : List (Req × App)) :
+    (serve l).closed = true ↔ ∃ x ∈ l, persisted x.1 = false := by
+  induction l with
+  | nil => simp [serve]
+  | cons x l ih =>
+    obtain ⟨r, a⟩ := x
+    unfold serve
+    by_cases hp : persisted r = true
+    · simp only [hp, ↓reduceIte, ih, List.mem_cons, exists_eq_or_imp, Bool.true_eq_false, false_or]
+    · simp only [hp, Bool.false_eq_true, ↓reduceIte, List.mem_cons, exists_eq_or_imp, true_iff]
+      exact Or.inl (by simpa using hp)
+
+/-- … and it answers exactly the requests up to and including the first non-persistent one, each once -/
+theorem answers_until_first_close (l : List (Req × App)) :
+    (serve l).calls = (l.takeWhile (fun x => persisted x.1)).length + (if l.all (fun x => persisted x.1) then 0 else 1) := by
+  induction l with
+  | nil => rfl
+  | cons x l ih =>
+    obtain ⟨r, a⟩ := x
+    unfold serve
+    by_cases hp : persisted r = true
+    · simp only [hp, ↓reduceIte, ih, List.takeWhile_cons, List.length_cons, List.all_cons, Bool.true_and]
+      omega
+    · simp [hp]
+
+/-- the requests that get a response -/
+def answered : List (Req × App) → List (Req × App)
+  | [] => []
+  | (r, a) :: rest => if persisted r then (r, a) :: answered rest else [(r, a)]
+
+def expected (x : Req × App) : Parsed :=
+  ⟨Gen.responseVersion ++ [32] ++ x.2.status, wireHeaders x.1 x.2, expectedBody x.2⟩
+
+/-- C18 one response: whatever follows it on the wire, a delimited response of a well-formed app parses to the app's
+status line, the header list (app headers in order, then the server's additions) and the expected body, and the
+parser stops exactly at its end -/
+theorem one_response_parses_back (r : Req) (a : App) (tail : Bytes) (wf : WFApp a) (hd : Delimited r a) (fuel : Nat)
+    (hf : (finalHeaders r a).length + a.pieces.length + 3 ≤ fuel) :
+    parseResp fuel (respond r a ++ tail) = some (expected (r, a), tail) :=
+  parseResp_respond r a tail wf hd fuel hf
+
+/-- C18 parse back (partial: every response delimited, i.e. no HTTP/1.0 request answered without Content-Length):
+the whole byte stream of a connection parses, in request order, to exactly one response per answered request with
+the application's status, headers and body, and nothing is left over -/
+theorem responses_parse_back_partial (l : List (Req × App)) (fuel : Nat)
+    (wf : ∀ x ∈ l, WFApp x.2) (hd : ∀ x ∈ l, Delimited x.1 x.2)
+    (hf : ∀ x ∈ l, (finalHeaders x.1 x.2).length + x.2.pieces.length + 3 ≤ fuel) :
+    parseMany fuel (serve l).calls (serve l).raw = some ((answered l).map expected, []) := by
+  induction l with
+  | nil => rfl
+  | cons x l ih =>
+    obtain ⟨r, a⟩ := x
+    have hx : (r, a) ∈ (r, a) :: l := List.mem_cons_self ..
+    unfold serve answered
+    by_cases hp : persisted r = true
+    · simp only [hp, ↓reduceIte, parseMany, List.map_cons]
+      rw [parseResp_respond r a _ (wf _ hx) (hd _ hx) fuel (hf _ hx)]
+      simp only []
+      rw [ih (fun y hy => wf y (List.mem_cons_of_mem _ hy)) (fun y hy => hd y (List.mem_cons_of_mem _ hy))
+        (fun y hy => hf y (List.mem_cons_of_mem _ hy))]
+      rfl
+    · simp only [hp, Bool.false_eq_true, ↓reduceIte, parseMany, List.map_cons, List.map_nil]
+      have := parseResp_respond r a [] (wf _ hx) (hd _ hx) fuel (hf _ hx)
+      rw [List.append_nil] at this
+      rw [this]
+      rfl
+
+/-- C18 self-delimiting (partial): every response of a well-formed app is delimited by its own bytes unless the
+request is HTTP/1.0 and the app declares no Content-Length -/
+theorem self_delimiting_partial (r : Req) (a : App) (tail : Bytes) (wf : WFApp a)
+    (g : ¬ (r.ver = 0 ∧ a.clen = none)) (fuel : Nat) (hf : (finalHeaders r a).length + a.pieces.length + 3 ≤ fuel) :
+    ∃ p, parseResp fuel (respond r a ++ tail) = some (p, tail) := by
+  have hd : Delimited r a := by
+    unfold Delimited
+    cases hc : a.clen with
+    | some L => exact Or.inl rfl
+    | none => exact Or.inr (fun h0 => g ⟨h0, hc⟩)
+  exact ⟨_, parseResp_respond r a tail wf hd fuel hf⟩
+
+/-- the excluded case really fails (F29, replayed on the implementation: known finding C18-K1): an HTTP/1.0
+keep-alive request answered without Content-Length stays open (`persisted`) yet its response has neither framing -/
+theorem f29_not_delimited :
+    let r : Req := ⟨0, some (lit "keep-alive")⟩
+    let a : App := ⟨lit "200 OK", [], none, [lit "ab"], []⟩
+    persisted r = true ∧ parseResp 100 (respond r a) = none ∧ parseResp 100 (respond r a ++ respond r a) = none := by
+  decide
+
+/-! non-vacuity: a concrete well-formed app with headers, empty pieces and a return value -/
+example : WFApp ⟨lit "404 Not Found", [(lit "Set-Cookie", lit "a=1"), (lit "x-b", lit "")], none, [lit "ab", [], lit "cd"], lit "t"⟩ :=
+  ⟨by decide, by decide, by decide, by decide, by decide, by intro L h; cases h⟩
+example : Delimited ⟨1, none⟩ ⟨lit "200 OK", [], none, [], []⟩ := by decide
+example : Delimited ⟨0, some (lit "keep-alive")⟩ ⟨lit "200 OK", [], some 2, [lit "abc"], []⟩ := by decide
+
 end Hio.Http.Wsgi
